@@ -347,15 +347,17 @@ def splitOn (sep : Char) : Str → List Str
 
 def plusToSpace (s : Str) : Str := s.map (fun c => if c == '+' then ' ' else c)
 
-/-- `parse_qsl(qs)`: `&`-separated `name=value` fields; fields without '=' or with an empty value
-    are dropped; '+' means space; names and values are unquoted -/
+/-- one `name=value` field of `parse_qsl`: dropped without '=' or with an empty value; '+' means
+    space; name and value are unquoted -/
+def parseField (nv : Str) : Option (Str × Str) :=
+  match partition '=' nv with
+  | (name, true, value) =>
+    if value = [] then none else some (unquote (plusToSpace name), unquote (plusToSpace value))
+  | _ => none
+
+/-- `parse_qsl(qs)`: the `&`-separated fields of a non-empty query -/
 def parseQsl (qs : Str) : List (Str × Str) :=
-  if qs = [] then [] else
-  (splitOn '&' qs).filterMap fun nv =>
-    match partition '=' nv with
-    | (name, true, value) =>
-      if value = [] then none else some (unquote (plusToSpace name), unquote (plusToSpace value))
-    | _ => none
+  if qs = [] then [] else (splitOn '&' qs).filterMap parseField
 
 /-- `parse_qs(qs).pop(key, [default])[0]`: the first value given for `key` -/
 def firstValue (key : Str) (q : List (Str × Str)) : Option Str :=
